@@ -301,3 +301,86 @@ for _p in patterns(4):
     ob('public/encoder/' + _p, marks=['encoded-after-register'], budget=(90, 300),
        bounds='utype.register_encoder + json.dumps(cls=JSONEncoder) on per-path classes EA, EB<EA: sequence %s' % _p,
        out='histories longer than 4')(_mk_public_encoder(_p))
+
+
+# ---- conversions that reach the type through a declaration made earlier (field, parameter, generic argument)
+ROUTES = ['type_transform', 'schema-field', 'function-parameter', 'generic-argument', 'list-field']
+
+
+@ob('public/declared-routes', marks=['done'], budget=(60, 200),
+    bounds='class P gets a converter, then a Schema (p: P, ps: List[P]), a @parse function (p: P) and Rule.annotate(list, P) are '
+           'declared and used once; P (or, solver-picked, its base class) is registered again (same or higher priority); the next '
+           'conversion through each route -- type_transform, the Schema field, the function parameter, the generic argument, the '
+           'List[P] field -- must use the new converter')
+def public_declared_routes(V):
+    from typing import List
+    _restore()
+    try:
+        class Base0:
+            def __init__(self, v=None):
+                self.v = v
+
+        class P(Base0):
+            pass
+
+        def a(transformer, data, t):
+            return t(('a', data))
+
+        def b(transformer, data, t):
+            return t(('b', data))
+        utype.register_transformer(P)(a)
+
+        class S(utype.Schema):
+            p: P = None
+            ps: List[P] = utype.Field(default_factory=list)
+
+        @utype.parse
+        def f(p: P):
+            return p
+        L = utype.Rule.annotate(list, P)
+        use = {'type_transform': lambda: type_transform(1, P).v, 'schema-field': lambda: S(p=1).p.v,
+               'function-parameter': lambda: f(1).v, 'generic-argument': lambda: L([1])[0].v, 'list-field': lambda: S(ps=[1]).ps[0].v}
+        route = V.pick('route', ROUTES)
+        if V.bool('used_before'):
+            V.check(use[route]() == ('a', 1), 'public:setup', lambda: route)
+        target = V.pick('register_for', ['P', 'base-with-higher-priority'])
+        if target == 'P':
+            utype.register_transformer(P, priority=V.pick('priority', [0, 1]))(b)
+        else:
+            utype.register_transformer(Base0, priority=1)(b)
+        got = attempt(use[route])
+        label = 'compiled-generic-argument' if route in ('generic-argument', 'list-field') else route
+        V.check(got == ('ok', ('b', 1)), 'public:stale-converter:' + label,
+                lambda: 'after re-registering for %s, a conversion through %s -> %r (expected the new converter b)' % (target, route, got))
+        V.cover('done')
+    finally:
+        _restore()
+
+
+@ob('registry/reentrant-registration', marks=['done'], budget=(40, 120),
+    bounds='a detector that, when first consulted for class A, registers a dedicated converter for A (a lazily loaded plug-in) and then '
+           'answers True or False (solver-picked); 0..1 earlier lookups of another class: the lookup after the one that triggered the '
+           'registration resolves A by the registrations made so far (the in-flight scan of the old list must not be cached)')
+def reentrant_registration(V):
+    reg = TypeRegistry('t', cache=True)
+    f_old, f_new, f_det = mk_fn(0), mk_fn(1), mk_fn(2)
+    answer = V.bool('detector_answer')
+    state = {'done': False}
+
+    def det(t):
+        if t is A and not state['done']:
+            state['done'] = True
+            reg.register(A, allow_subclasses=False)(f_new)
+        return answer and t is A
+    if V.bool('older_registration'):
+        reg.register(A)(f_old)
+    reg.register(detector=det)(f_det)
+    if V.bool('lookup_other_first'):
+        reg.resolve(X)
+    first = reg.resolve(A)
+    second = reg.resolve(A)
+    third = reg.resolve(A)
+    # f_new is the most recent registration matching A (priority 0, like the others)
+    det_ = lambda: 'first lookup -> %s, second -> %s, third -> %s' % tuple(getattr(x, '__name__', x) for x in (first, second, third))
+    V.check(second is f_new and third is f_new, 'resolve:stale-after-reentrant-registration', det_)
+    V.cover('done')
